@@ -3,6 +3,7 @@
 package hx
 
 import (
+	"time"
 	"bufio"
 	"encoding/json"
 	"fmt"
@@ -145,4 +146,34 @@ func Quiet() {
 	if err == nil {
 		os.Stdout = null
 	}
+}
+
+// Watchdog: if a case runs longer than d, the trace gets a "hang" output line and
+// the process exits (status 0) so that the judge can report the hang with its replay.
+type Watchdog struct {
+	tr    *Trace
+	armed chan string
+	done  chan bool
+}
+
+func NewWatchdog(tr *Trace, d time.Duration) *Watchdog {
+	w := &Watchdog{tr: tr, armed: make(chan string), done: make(chan bool)}
+	go func() {
+		for range w.armed {
+			select {
+			case <-w.done:
+			case <-time.After(d):
+				tr.Out("hang")
+				tr.Close()
+				os.Exit(0)
+			}
+		}
+	}()
+	return w
+}
+
+func (w *Watchdog) Run(f func()) {
+	w.armed <- ""
+	f()
+	w.done <- true
 }
